@@ -232,7 +232,7 @@ class Node:
         # An internal list of hop-by-hop IDs and peers waiting for a matching
         # answer message. The dictionary contains host identities as keys, with
         # dictionaries of hop-by-hop ids and request sent timestamps as values.
-        self._peer_waiting_answer: dict[str, dict[int, float]] = {}
+        self._peer_waiting_answer: dict[str, dict[tuple[int, int], float]] = {}
         # An internal list that keeps track of which origin-host is expecting
         # which answer. The list is a dictionary with message identifiers as
         # keys and origin-hosts as answers. This is mostly required for keeping
@@ -961,7 +961,11 @@ class Node:
             if conn.host_identity not in self._peer_waiting_answer:
                 self._peer_waiting_answer[conn.host_identity] = {}
             waiting = self._peer_waiting_answer[conn.host_identity]
-            waiting[message.header.hop_by_hop_identifier] = time.time()
+            # hop-by-hop identifiers are only unique per connection; together
+            # with the end-to-end identifier they identify the request among
+            # all peers
+            waiting[(message.header.hop_by_hop_identifier,
+                     message.header.end_to_end_identifier)] = time.time()
             receiving_app.receive_request(message)
             return
 
@@ -1544,7 +1548,8 @@ class Node:
                 time
 
         """
-        message_id = message.header.hop_by_hop_identifier
+        message_id = (message.header.hop_by_hop_identifier,
+                      message.header.end_to_end_identifier)
         waiting_host_identity = None
         for host_identity, messages in self._peer_waiting_answer.items():
             if message_id in messages:
@@ -1553,7 +1558,7 @@ class Node:
 
         if waiting_host_identity is None:
             raise NotRoutable(
-                f"No peer is waiting for an answer with ID {hex(message_id)}")
+                f"No peer is waiting for an answer with ID {hex(message_id[0])}")
 
         del self._peer_waiting_answer[waiting_host_identity][message_id]
 
@@ -1565,7 +1570,7 @@ class Node:
 
         if conn is None:
             raise NotRoutable(
-                f"Connection waiting for an answer with ID {hex(message_id)} "
+                f"Connection waiting for an answer with ID {hex(message_id[0])} "
                 f"has gone away")
 
         if conn.state not in PEER_READY_STATES:
@@ -1663,7 +1668,8 @@ class Node:
                 request or an answer.
 
         """
-        message_id = message.header.hop_by_hop_identifier
+        message_id = (message.header.hop_by_hop_identifier,
+                      message.header.end_to_end_identifier)
         if (not message.header.is_request and
                 conn.host_identity in self._peer_waiting_answer and
                 message_id in self._peer_waiting_answer[conn.host_identity]):
